@@ -411,8 +411,37 @@ func c20JudgeInscr(c *mon.Ctx, in *c20Inscr) {
 	if got.LockingScriptPrefix == nil || !bytes.Equal(*got.LockingScriptPrefix, want) {
 		c.Violationf("C20:inscription:prefix-differs", "parsed prefix differs from the 25-byte P2PKH prefix that was inscribed")
 	}
-	if !bytes.Equal(*prefix, want) {
+	if !bytes.Equal(*args.LockingScriptPrefix, want) {
 		c.Violationf("C20:inscription:caller-prefix-modified", "Inscribe changed the caller's LockingScriptPrefix bytes")
+	}
+	// the prefix is an argument: it may be a sub-slice of a larger buffer of the caller's,
+	// and the same prefix may be used for several inscriptions
+	if len(in.Data) <= 4096 {
+		room := 25 + 2*(len(in.Data)+len(in.ContentType)) + 400
+		arena := bytes.Repeat([]byte{0xEE}, room)
+		copy(arena, want)
+		shared := bscript.Script(arena[:25])
+		other := append([]byte("second:"), in.Data...)
+		tx2 := bt.NewTx()
+		var e1, e2 error
+		if c.Try("bt.(*Tx).Inscribe", func() {
+			e1 = tx2.Inscribe(&bscript.InscriptionArgs{LockingScriptPrefix: &shared, Data: append([]byte{}, in.Data...), ContentType: in.ContentType})
+			e2 = tx2.Inscribe(&bscript.InscriptionArgs{LockingScriptPrefix: &shared, Data: other, ContentType: "x/" + in.ContentType})
+		}) && e1 == nil && e2 == nil && len(tx2.Outputs) == 2 {
+			c.Count("inscribe:two-inscriptions-from-one-prefix-inside-a-larger-buffer")
+			for i := 25; i < len(arena); i++ {
+				if arena[i] != 0xEE {
+					c.Violationf("C20:inscription:argument-memory-modified", "Inscribe wrote into the caller's buffer behind the LockingScriptPrefix argument (offset %d of the buffer)", i)
+					break
+				}
+			}
+			var first *bscript.InscriptionArgs
+			if c.Try("bscript.(*Script).ParseInscription", func() { first, err = tx2.Outputs[0].LockingScript.ParseInscription() }) {
+				if err != nil || first == nil || first.ContentType != got.ContentType || !bytes.Equal(first.Data, got.Data) {
+					c.Violationf("C20:inscription:earlier-output-changed-by-a-later-inscription", "after a second Inscribe with the same prefix the first output no longer parses to what was inscribed (err=%v)", err)
+				}
+			}
+		}
 	}
 	c.Distinct(prng.HashBytes([]byte(in.ContentType), in.Data, in.Key))
 	c.Sample("inscription", 1, func() any {
